@@ -124,11 +124,35 @@ def check_event(res, v, dmap, maptype, mk, from_frame, FF, key="decode", case=No
     return d, got
 
 
+class Kept:
+    """Events decoded earlier are kept and looked at again after later decodes: a decoded event is a value - its frame,
+    fields and (for an ambiguous one) its retry must not change because OTHER events were decoded afterwards."""
+
+    def __init__(self, res):
+        self.res, self.items = res, []
+
+    def add(self, v, d, got, dmap=None, amb=None):
+        for (v0, d0, got0, dmap0, amb0) in self.items:
+            case = {"t": "kept", "v": v0, "later": v}
+            if d0 is not None and (d0.frame.as_integer != v0 or R.describe(d0) != got0):
+                add_violation(self.res, "C12:earlier-event-changed", f"event decoded from {v0:#08x} shows frame {d0.frame.as_integer:#08x} / {R.describe(d0)} "
+                              f"after {v:#08x} was decoded (was {got0})", case)
+            if amb0 is not None and dmap0 is not None:
+                r = amb0.retry_decode(dmap0)
+                if amb0.frame.as_integer != v0 or (r is not None and (r.frame.as_integer != v0 or (d0 is not None and R.describe(r) != got0))):
+                    add_violation(self.res, "C12:earlier-event-changed", f"ambiguous event kept from {v0:#08x}: after {v:#08x} was decoded its frame is "
+                                  f"{amb0.frame.as_integer:#08x} and retry_decode gives {r}", case)
+        self.items.append((v, d, got, dmap, amb))
+        if len(self.items) > 2:
+            self.items.pop(0)
+
+
 def run_shard(shard):
     from dali.command import from_frame
     from dali.frame import ForwardFrame as FF
     from dali.device.general import AmbiguousInstanceType
     res = new_result()
+    kept = Kept(res)
     k = shard[0]
     if k == "nomap":
         for a7 in shard[1]:
@@ -137,6 +161,8 @@ def run_shard(shard):
                 d, got = check_event(res, v, None, "nomap", "nomap", from_frame, FF)
                 if got:
                     res["distinct"].add((got[1], R.event_scheme(v)))
+                    if low % 97 == 0 or (low & 0x3FF) < 2:
+                        kept.add(v, d, got)
             res["evaluations"] += 65536
         sample(res, {"nomap_address_fields": shard[1], "frames_each": 65536})
     elif k == "map":
@@ -170,6 +196,8 @@ def run_shard(shard):
                         if r is None or d is None or type(r) is not type(d) or R.describe(r) != got or str(r) != str(d) \
                                 or r.frame.as_integer != v:
                             add_violation(res, "C12:retry-differs", f"retry_decode({v:#08x}, type {t}) -> {r}, direct decode {d}", {"t": "retry", "v": v, "map": str(t)})
+                    if data % 61 == 0 and maptype is not None and d is not None:
+                        kept.add(v, d, got, dmap, amb)
                     if data % 256 == 3:
                         r2 = amb.retry_decode(nomap_empty)
                         if r2 is not None:
@@ -262,6 +290,11 @@ def replay(case):
         if mt == "nomap":
             mt = "noentry"
         return run_shard(("map", mt, [s], [i]))["violations"]
+    elif t == "kept":
+        s0, i0 = (v >> 17) & 0x3F, (v >> 10) & 0x1F
+        vs = run_shard(("map", 0, [s0, (case["later"] >> 17) & 0x3F], [i0, (case["later"] >> 10) & 0x1F]))["violations"]
+        vs += run_shard(("nomap", [v >> 17, case["later"] >> 17]))["violations"]
+        return [x for x in vs if x["key"] == "C12:earlier-event-changed"]
     elif t == "mapops":
         ops = [tuple(o) for o in case["ops"]]
         vs = run_shard(("mapops", MAP_OPS.index(ops[0]), len(ops)))["violations"]
